@@ -1,0 +1,85 @@
+//go:build verif
+// +build verif
+
+package zap
+
+// Hooks for the model-based verification harness in /verif.  Compiled only
+// with the build tag "verif"; none of them changes the behaviour of the
+// library.
+
+import (
+	"sync/atomic"
+	"unsafe"
+)
+
+// VerifPollHook, when set, runs at every poll of a merge's close channel
+// (isClosed), before the channel is examined.
+var VerifPollHook func()
+
+func verifPoll(closeCh chan struct{}) {
+	if h := VerifPollHook; h != nil {
+		h()
+	}
+}
+
+var verifCtxFresh int64
+
+func init() {
+	orig := visitDocumentCtxPool.New
+	visitDocumentCtxPool.New = func() interface{} {
+		atomic.AddInt64(&verifCtxFresh, 1)
+		return orig()
+	}
+}
+
+// VerifCtxPoolSnapshot takes scratch objects out of visitDocumentCtxPool until
+// the pool has to create a fresh one, reports the identities seen (an identity
+// occurring twice means the object was in the pool twice) and puts the
+// distinct ones back.
+func VerifCtxPoolSnapshot() (ids []uintptr) {
+	var got []*visitDocumentCtx
+	for i := 0; i < 256; i++ {
+		before := atomic.LoadInt64(&verifCtxFresh)
+		v := visitDocumentCtxPool.Get().(*visitDocumentCtx)
+		if atomic.LoadInt64(&verifCtxFresh) != before {
+			break // created by New: the pool had nothing more to give
+		}
+		got = append(got, v)
+	}
+	seen := map[*visitDocumentCtx]bool{}
+	for _, v := range got {
+		ids = append(ids, uintptr(unsafe.Pointer(v)))
+		seen[v] = true
+	}
+	for v := range seen {
+		visitDocumentCtxPool.Put(v)
+	}
+	return ids
+}
+
+// VerifBuilderResidue reports what the builder that interimPool would hand
+// out next carries over from its previous use (capacities of reused buffers).
+func VerifBuilderResidue() map[string]int {
+	s := interimPool.Get().(*interim)
+	r := map[string]int{
+		"fieldsInvCap": cap(s.FieldsInv),
+		"metaBufCap":   s.metaBuf.Cap(),
+		"tmp0Cap":      cap(s.tmp0),
+		"opaques":      len(s.opaque),
+	}
+	if s.opaque != nil {
+		if io, ok := s.opaque[SectionInvertedTextIndex].(*invertedIndexOpaque); ok {
+			r["postingsCap"] = cap(io.Postings)
+			r["dictKeysCap"] = cap(io.DictKeys)
+			r["includeDocValuesCap"] = cap(io.IncludeDocValues)
+			r["freqNormsBackingCap"] = cap(io.freqNormsBacking)
+			r["locsBackingCap"] = cap(io.locsBacking)
+		}
+		if so, ok := s.opaque[SectionSynonymIndex].(*synonymIndexOpaque); ok {
+			r["synonymsCap"] = cap(so.Synonyms)
+			r["thesaurusKeysCap"] = cap(so.ThesaurusKeys)
+		}
+	}
+	interimPool.Put(s)
+	return r
+}
